@@ -16,6 +16,7 @@ the bookkeeping state (`hasher.nodes`, `_failed_clients`, `_dead_clients`, `_las
 whether it has a socket, bytes left unread on it), the sockets it closed so far in order of closing, and the number
 of checked-out clients.
 """
+from common import FakeClock
 import os
 import random
 import subprocess
@@ -164,10 +165,7 @@ def run_python(params, history):
     n, ra, rt, dt, ign, t0, max_size, idle = params
     w = World()
 
-    class FakeTime:
-        @staticmethod
-        def time():
-            return w.now
+    FakeTime = FakeClock(lambda: w.now)
 
     class CountingClient(Client):
         pass
